@@ -280,6 +280,25 @@ impl AdfProblemInfo {
     }
 }
 
+/// Removes its entry from `currently_running` when dropped, i.e. also when the task panics.
+struct RunningGuard {
+    app_state: web::Data<AppState>,
+    running_info: RunningInfo,
+}
+
+impl Drop for RunningGuard {
+    fn drop(&mut self) {
+        match self.app_state.currently_running.lock() {
+            Ok(mut running) => {
+                running.remove(&self.running_info);
+            }
+            Err(poisoned) => {
+                poisoned.into_inner().remove(&self.running_info);
+            }
+        }
+    }
+}
+
 #[post("/add")]
 async fn add_adf_problem(
     req: HttpRequest,
@@ -409,6 +428,10 @@ async fn add_adf_problem(
                 .lock()
                 .unwrap()
                 .insert(running_info.clone());
+            let _running_guard = RunningGuard {
+                app_state: app_state.clone(),
+                running_info: running_info.clone(),
+            };
 
             #[cfg(feature = "mock_long_computations")]
             std::thread::sleep(Duration::from_secs(20));
@@ -569,6 +592,10 @@ async fn solve_adf_problem(
                 .lock()
                 .unwrap()
                 .insert(running_info.clone());
+            let _running_guard = RunningGuard {
+                app_state: app_state.clone(),
+                running_info: running_info.clone(),
+            };
 
             #[cfg(feature = "mock_long_computations")]
             std::thread::sleep(Duration::from_secs(20));
